@@ -264,6 +264,10 @@ func c14Run(c *Ctx, i int, r *gen.R) {
 				}
 				return textW.Render()
 			}},
+			// the same long-lived wrapper, styled through the OTHER setter (by value): the two setters are used in any order
+			rd{"reused text wrapper switched to " + name + " with SetDecoration(decoration.Named(name))", "text:" + name, func() (string, error) {
+				return textW.SetDecoration(decoration.Named(name)).Render()
+			}},
 			rd{"auto.Render " + name, "text:" + name, func() (string, error) { return auto.Render(t, name) }},
 			// valid styles which auto only resolves after trying other readings of the string first: a render that
 			// succeeds leaves nothing behind on the table, whatever it took to find the decoration
